@@ -705,3 +705,8 @@ J(name="c12.degsToRads", props=["C12", "C18"], harness="c12.c", entry="h_degsToR
 J(name="c12.radsToDegs", props=["C12", "C18"], harness="c12.c", entry="h_radsToDegs", enforce=["radsToDegs"])
 J(name="c12.gridDiskUnsafe", props=["C12", "C18", "C05"], harness="c12.c", entry="h_gridDiskUnsafe", enforce=["gridDiskUnsafe"],
   replace=["gridDiskDistancesUnsafe/gridDiskDistancesUnsafe_ghost"])
+
+J(name="c13.cellToChildPos.badres", props=["C13", "C12"], harness="c13.c", entry="h_cellToChildPos", enforce=["cellToChildPos/cellToChildPos_badres"],
+  unwind=17, replay=dict(fn="cellToChildPos", args=["child", "parentRes"]))
+J(name="c13.childPosToCell.badres", props=["C13", "C12"], harness="c13.c", entry="h_childPosToCell", enforce=["childPosToCell/childPosToCell_badres"],
+  unwind=17, replay=dict(fn="childPosToCell", args=["pos", "parent", "childRes"]))
